@@ -87,15 +87,15 @@ type CbEvt struct {
 }
 
 type ApiEvt struct {
-	ID         int
-	Inst, Gen  int
-	Kind       string
-	Act        *Action
-	TInv, TRet time.Duration // TRet -1 while running
-	SInv, SRet uint64
-	Err        error
-	Bool       bool // result of validate calls
-	startsAtInv int // stop calls: successful Starts of the instance so far, at invocation
+	ID          int
+	Inst, Gen   int
+	Kind        string
+	Act         *Action
+	TInv, TRet  time.Duration // TRet -1 while running
+	SInv, SRet  uint64
+	Err         error
+	Bool        bool // result of validate calls
+	startsAtInv int  // stop calls: successful Starts of the instance so far, at invocation
 	duringStart bool // stop calls: invoked while a Start of the object had not returned
 	// for validate: claim/token at invocation
 	LeaderAtInv    bool
